@@ -90,7 +90,7 @@ PROPS = {
     "C14": {
         "modules": ["CambrianModel.Props.C14"],
         "theorems": ["Cambrian.Props.C14_counts", "Cambrian.Props.C14_counts_always", "Cambrian.Props.C14_items",
-                     "Cambrian.Props.C14_file", "Cambrian.Props.C14_meta_probs", "Cambrian.Props.C14_meta_scale", "Cambrian.Props.C14_drained", "Cambrian.Props.C14_drained_step"],
+                     "Cambrian.Props.C14_file", "Cambrian.Props.C14_meta_probs", "Cambrian.Props.C14_meta_scale", "Cambrian.Props.C14_row_roundtrip", "Cambrian.Props.C14_row_order", "Cambrian.Props.C14_drained", "Cambrian.Props.C14_drained_step"],
         "correspondences": ["proc", "ctl", "algo", "run"],
         "trusted": PROC_TRUST + CTL_TRUST + ["float law FL-mul-sign (product of a number >= 0 and a positive finite factor is a number >= 0)"],
         "assumptions": ["float law FL-mul-sign for the observed products; the clamp of the mutation scale is an extracted source fact (Generated.scaleClamped)"],
